@@ -109,6 +109,27 @@ fn run_script(steps: &[Value]) -> Option<String> {
                     }
                 }
             }
+            "tear" => {
+                // crash while the LAST record was being written: only its first st[1] per-mille bytes reached the file (the rest
+                // reads as the pre-allocated zeros); reopening must succeed and resume right after the last intact record
+                if let Some(last) = log.last().cloned() {
+                    let keep = (last.n as u64 * st[1].as_u64().unwrap_or(500).min(999) / 1000) as usize;
+                    let _ = w.flush_writer();
+                    drop(w);
+                    {
+                        use std::os::unix::fs::FileExt;
+                        let f = std::fs::OpenOptions::new().write(true).open(&path).ok()?;
+                        let zeros = vec![0u8; last.n - keep];
+                        f.write_all_at(&zeros, last.off + keep as u64).ok()?;
+                    }
+                    log.pop();
+                    w = match Writer::<1>::open(&path, size, START) { Ok(w) => w, Err(e) => return Some(format!("step {i}: reopening after a crash that tore the last record ({keep} of {} bytes on disk) failed: {e}", last.n)) };
+                    let expect = log.last().map(|l| l.off + l.n as u64).unwrap_or(START);
+                    if w.write_offset() != expect { return Some(format!("step {i}: after a torn last record the reopened writer resumes at {} but the last intact record ends at {expect}", w.write_offset())); }
+                    r = Reader::<1>::open(&path, Some(w.flushed_offset())).ok()?;
+                    stale.clear();
+                }
+            }
             "reopen" => {
                 let _ = w.sync();
                 drop(w);
@@ -157,6 +178,10 @@ pub fn search(_item: &str, seed: u64, _hint: &Value) -> Option<(Value, String)> 
     ];
     for s in sizes { for comp in [false, true] {
         scripts.push(vec![json!(["compress", comp]), json!(["append", 60000, 9, true]), json!(["append", s, 5, !comp]), json!(["append", 3, 6, false]), json!(["sync"]), json!(["read", 1]), json!(["readseq", 1]), json!(["read", 2]), json!(["iter"]), json!(["reopen"]), json!(["readseq", 1])]);
+    }}
+    // C05: a crash inside the last record (any cut), then reopen, read everything back, append again
+    for cut in [1u64, 4, 8, 9, 100, 500, 900, 999] { for len in [0usize, 10, 5000] {
+        scripts.push(vec![json!(["append", 100, 31, false]), json!(["append", 300, 32, false]), json!(["sync"]), json!(["append", len, 33, false]), json!(["tear", cut]), json!(["iter"]), json!(["read", 1]), json!(["append", 50, 34, false]), json!(["sync"]), json!(["iter"]), json!(["reopen"]), json!(["iter"])]);
     }}
     // C18: a long-lived reader whose read-ahead window (beyond the first 64 KiB) was filled before later records were flushed
     for first in [60000usize, 66000, 130000] { for comp in [false, true] {
